@@ -18,6 +18,7 @@ import (
 	"errors"
 	"fmt"
 	"math/big"
+	"sort"
 	"strings"
 
 	"github.com/ipfs/boxo/ipns"
@@ -39,12 +40,13 @@ func main() { vlib.Run("C25", run) }
 func run(c *vlib.Ctx) {
 	c.Rule("case = one base record (key type x v1-compat x embed option x future/expired EOL x seq/ttl/value/metadata classes) plus donor records (same key other content, other key same content, same key expired, same key re-signed) and 20-45 wire-level variants, each judged through ValidateWithName, Validate, Validator.Validate(+-KeyBook); distinct = FNV of base spec + variant list + observed accept/reject codes; non-trivial = within the case at least one variant was accepted by some entry point AND at least one variant was rejected by all of them (measured)")
 	kit.Keys(c.Seed)
-	c.Cases("v1", c.N(230, 5200), func(k *vlib.Case) { mutationCase(k, "v1") })
-	c.Cases("v2", c.N(170, 3800), func(k *vlib.Case) { mutationCase(k, "v2") })
-	c.Cases("legacy", c.N(90, 2000), func(k *vlib.Case) { mutationCase(k, "legacy") })
-	c.Cases("name", c.N(80, 1600), nameCase)
-	c.Cases("size", c.N(32, 400), sizeCase)
-	c.Cases("malleable", c.N(40, 800), malleableCase)
+	c.Cases("v1", c.N(230, 3000), func(k *vlib.Case) { mutationCase(k, "v1") })
+	c.Cases("v2", c.N(170, 2200), func(k *vlib.Case) { mutationCase(k, "v2") })
+	c.Cases("legacy", c.N(90, 1000), func(k *vlib.Case) { mutationCase(k, "legacy") })
+	c.Cases("name", c.N(80, 900), nameCase)
+	c.Cases("size", c.N(32, 200), sizeCase)
+	c.Cases("malleable", c.N(40, 400), malleableCase)
+	c.Cases("flipall", c.N(16, 160), flipAllCase)
 }
 
 // ---------------------------------------------------------------- world
@@ -68,6 +70,8 @@ type world struct {
 	signedBy map[string]map[string]*signedInfo // key ID -> data blob -> info
 	accepted int                               // variants accepted by >= 1 entry point
 	rejected int                               // variants rejected by all entry points
+	quiet    bool                              // exhaustive sweeps: tally outcome codes instead of logging each variant
+	hist     map[string]int
 }
 
 func newWorld(k *vlib.Case) *world {
@@ -170,7 +174,11 @@ func (w *world) judge(wire []byte, nk *kit.Key, feat string) bool {
 			any = true
 		}
 	}
-	k.Logf("   -> %s", strings.Join(codes, " "))
+	if w.quiet {
+		w.hist[strings.Join(codes, " ")]++
+	} else {
+		k.Logf("   -> %s", strings.Join(codes, " "))
+	}
 	var fails []failure
 	for _, r := range rs {
 		if r.err == nil && r.entry != "UnmarshalRecord" {
@@ -730,6 +738,46 @@ func mutationCase(k *vlib.Case, mode string) {
 	k.C.Count("variants", int64(n+4))
 }
 
+// flipAllCase: one bit flipped at EVERY byte position of signatureV2, pubKey,
+// signatureV1, value, validity and data (one variant per position).
+func flipAllCase(k *vlib.Case) {
+	r := k.R
+	w := newWorld(k)
+	defer w.finish()
+	key := w.ks[k.Index%len(w.ks)] // every key is swept
+	bs := kit.GenSpec(r, w.ks, key, true)
+	if bs.Embed != nil && !*bs.Embed && !key.Inline {
+		bs.Embed = nil
+	}
+	k.Logf("stratum flipall; base: %s", bs)
+	base := w.make(bs)
+	k.Logf("pristine base under %s", key.ID)
+	w.judge(base.wire, key, "pristine")
+	nv := 1
+	for _, n := range []int{kit.FSignatureV2, kit.FPubKey, kit.FData, kit.FValue, kit.FValidity, kit.FSignatureV1} {
+		i := kit.IndexOf(base.fs, n)
+		if i < 0 || len(base.fs[i].B) == 0 {
+			continue
+		}
+		k.Logf("flip one bit (drawn per position) at every byte position of %s", kit.FieldNames[n])
+		w.quiet, w.hist = true, map[string]int{}
+		for pos := range base.fs[i].B {
+			fs := kit.CloneFields(base.fs)
+			fs[i].B[pos] ^= 1 << uint(r.Intn(8))
+			w.judge(kit.EncodeWire(fs), key, kit.FieldNames[n]+":flip")
+			nv++
+		}
+		w.quiet = false
+		var hs []string
+		for c, cnt := range w.hist {
+			hs = append(hs, fmt.Sprintf("%dx[%s]", cnt, c))
+		}
+		sort.Strings(hs)
+		k.Logf("   -> %s", strings.Join(hs, " "))
+	}
+	k.C.Count("variants", int64(nv))
+}
+
 // nameCase: one record offered under every generated name, with the embedded
 // key absent / the signer's / the target name's.
 func nameCase(k *vlib.Case) {
@@ -962,6 +1010,14 @@ func malleableCase(k *vlib.Case) {
 	}
 	try("prefixed by a zero byte", "prefix", append([]byte{0}, sig...))
 	nv++
+	{
+		// the embedded key re-encoded: an unknown field inside the libp2p PublicKey message; it still denotes the signer's key
+		pkb := append(append([]byte{}, key.PKBytes...), 0x18, 0x01)
+		fs := setField(kit.CloneFields(base.fs), bytesField(kit.FPubKey, pkb))
+		k.Logf("pubKey := signer's key re-encoded with an unknown field inside the PublicKey message")
+		w.judge(kit.EncodeWire(fs), key, "pubKey:reencode")
+		nv++
+	}
 	switch key.Type {
 	case "ecdsa", "secp256k1":
 		n := p256N
